@@ -97,6 +97,7 @@ int pick_gen(Rng &r, int dtype, const Profile &pf) {
     if (pf.cblocks && r.chance(0.6)) return G_CBLOCKS;
     if (dt_is_float(dtype)) { static const int g[] = {G_RAMP, G_RANDOM, G_DECADES, G_RANDOM, G_ALT, G_CONST, G_OFFSET}; return g[r.below(7)]; }
     if (dt_bits[dtype] >= 16 && r.chance(0.14)) return G_OFFSET;
+    if (!pf.no_omission && r.chance(0.07)) return G_HDRLIKE;      // integer samples whose bytes look like an (empty, tag 0) chunk header to the CRC
     static const int g[] = {G_RAMP, G_RANDOM, G_RANDOM, G_ALT, G_CONST, G_CBLOCKS};
     return g[r.below(6)];
 }
